@@ -162,6 +162,20 @@ func RunTaggable(policyFile string, seed int64) (*Report, error) {
 			rep.mm(Mismatch{Props: []string{"C09"}, What: "tag pointer " + tc.ptr, Vector: tc.ptr, Expected: fmt.Sprintf("error=%v", tc.wantErr), Observed: fmt.Sprintf("panic=%v err=%v forwarded=%v", pan, perr, out != nil)})
 		}
 	}
+	// nil and zero payloads are forwarded unchanged: the very same event comes back
+	type zs struct {
+		A string `class:"secret"`
+		B []byte `class:"sensitive"`
+	}
+	for name, pl := range map[string]interface{}{"nil": nil, "typed nil pointer": (*zs)(nil), "zero struct value": zs{}, "empty string": "", "nil map": map[string]interface{}(nil)} {
+		rep.Vectors++
+		rep.Runs++
+		e := &eventlogger.Event{Type: "t", Payload: pl, Formatted: map[string][]byte{}}
+		out, perr, pan := process(&encrypt.Filter{Wrapper: w}, e)
+		if pan != nil || perr != nil || out != e {
+			rep.mm(Mismatch{Props: []string{"C10"}, What: "a " + name + " payload must be forwarded unchanged (same event)", Vector: name, Expected: "same event, nil error", Observed: fmt.Sprintf("panic=%v err=%v same=%v", pan, perr, out == e)})
+		}
+	}
 	// rotation payloads are consumed, never forwarded
 	rep.Vectors++
 	rep.Runs++
